@@ -372,6 +372,7 @@ class User(callbacks.Plugin):
                not caller_is_owner:
                     irc.error(conf.supybot.replies.incorrectAuthentication(),
                               Raise=True)
+            alreadyThere = hostmask in user.hostmasks
             try:
                 user.addHostmask(hostmask)
             except ValueError as e:
@@ -379,7 +380,8 @@ class User(callbacks.Plugin):
             try:
                 ircdb.users.setUser(user)
             except ircdb.DuplicateHostmask as e:
-                user.removeHostmask(hostmask)
+                if not alreadyThere:
+                    user.removeHostmask(hostmask)
                 if caller_is_owner:
                     err = _('That hostmask is already registered to %s.') \
                               % e.args[0]
